@@ -26,7 +26,7 @@ EXHAUSTIVE = {"quick": False, "thorough": False}
 def plan(tier, seed):
     if tier == "quick":
         return [{"trees": 2000}]
-    return [{"trees": 14000, "salt": i} for i in range(32)]
+    return [{"trees": 7000, "salt": i} for i in range(32)]
 
 
 def allowed_names(element):
